@@ -97,6 +97,38 @@ theorem inventory_roundtrip_distinct (P : PyRe) (hP : PyReOk P) (C : Codec)
   rw [h2, dictOfList, foldl_dictSet_nodup _ [] (by simpa using hk)]
   simp
 
+/-- **A consumer finds the exact spelling first.** Whatever else the loaded inventory holds (in
+particular an entry whose key is the lower-cased spelling of `key`), a key that is present resolves to
+its own entry. -/
+theorem resolve_exact_wins (d : Dict) (key lowerKey : List Char) (e : Entry) (h : dictGet d key = some e) :
+    resolveIn d key lowerKey = some e := by
+  simp only [resolveIn, h]
+
+/-- **Another project loading the written file resolves the same names to the same entries.** Under the
+hypotheses of `inventory_roundtrip_distinct`, every written entry is what `TargetDatabase.__getitem__`
+finds in the loaded inventory under the entry's own (canonical) key, for every value of `key.lower()`. -/
+theorem resolve_roundtrip (P : PyRe) (hP : PyReOk P) (C : Codec)
+    (hC : ∀ s, C.decompress (C.compress s) = some s)
+    (hE : ∀ s, '\n' ∉ s → (10 : UInt8) ∉ C.enc s)
+    (name version : List Char) (hn : '\n' ∉ name) (hv : '\n' ∉ version)
+    (inv : Dict) (hwf : ∀ kv ∈ inv, WFEntry P kv.2)
+    (hk : ((inv.map canonKV).map Prod.fst).Nodup) (kv : List Char × Entry) (hkv : kv ∈ inv) (lowerKey : List Char) :
+    ∃ bytes d, dumps C name version inv = some bytes ∧ parse P C bytes = some d ∧
+      resolveIn d (keyOf (canon kv.2)) lowerKey = some (canon kv.2) := by
+  obtain ⟨b, h1, h2⟩ := inventory_roundtrip_distinct P hP C hC hE name version hn hv inv hwf hk
+  refine ⟨b, _, h1, h2, resolve_exact_wins _ _ _ _ ?_⟩
+  exact lookup_of_mem_nodup _ _ _ (List.mem_map.2 ⟨kv, hkv, rfl⟩) hk
+
+/-- two options of one program that differ only in letter case: each resolves to itself, also when the
+lower-cased key names the twin -/
+def exTwins : Dict :=
+  [("std:option:m.-o".toList, { ex1 with name := "m.-o".toList, uriBase := "m/#o".toList, uri := "m/#o".toList }),
+   ("std:option:m.-O".toList, { ex1 with name := "m.-O".toList, uriBase := "m/#O".toList, uri := "m/#O".toList })]
+example : (resolveIn exTwins "std:option:m.-O".toList "std:option:m.-o".toList).map (·.uri) = some "m/#O".toList := by decide
+example : (resolveIn exTwins "std:option:m.-o".toList "std:option:m.-o".toList).map (·.uri) = some "m/#o".toList := by decide
+example : normalizeWs asciiRe "std:label:a \t b  c".toList = "std:label:a b c".toList := by decide
+example : unescapeBackslash "mongodb:php:A\\\\B\\\\\\C".toList = "mongodb:php:A\\B\\\\C".toList := by decide
+
 /-- a two-entry inventory (one aliased role) satisfying all hypotheses -/
 def exInv : Dict :=
   [("std:option:x".toList, ex1),
